@@ -5,6 +5,7 @@ package main
 
 import (
 	"context"
+	"fmt"
 	"runtime"
 	"sort"
 	"strings"
@@ -39,6 +40,18 @@ const (
 )
 
 var tyNames = []string{"none", "model", "retriever", "embedding", "prompt", "tools", "lambdaA", "lambdaB", "indexer", "loader", "transformer"}
+
+// toolCalls: the number of tool calls in the message every ToolsNode of a case is given (the
+// fake tool records one execution per tool call)
+const toolCalls = 2
+
+// execsPerRun: how many executions a node records each time the engine runs it
+func execsPerRun(nd Node) int {
+	if nd.Kind == "comp" && nd.Ty == tyTools {
+		return toolCalls
+	}
+	return 1
+}
 
 // sink is the implementation-specific option struct of every fake component: an option
 // value with payload p appends p.
@@ -412,7 +425,13 @@ func addComp(ctx context.Context, g nodeSink, key, path string, ty, nat int) (an
 		if err != nil {
 			return nil, err
 		}
-		msg := schema.AssistantMessage("", []schema.ToolCall{{ID: "c1", Function: schema.FunctionCall{Name: "faketool", Arguments: "{}"}}})
+		// toolCalls tool calls: the ToolsNode runs the first one on its own goroutine and every
+		// other one on a goroutine of its own; each of them must be handed the tool options
+		calls := make([]schema.ToolCall, toolCalls)
+		for i := range calls {
+			calls[i] = schema.ToolCall{ID: fmt.Sprintf("c%d", i+1), Function: schema.FunctionCall{Name: "faketool", Arguments: "{}"}}
+		}
+		msg := schema.AssistantMessage("", calls)
 		return msg, g.AddToolsNode(key, tn, o...)
 	case tyLambdaA:
 		return nil, g.AddLambdaNode(key, optLambda(path, nat, idsA), lo...)
